@@ -1052,29 +1052,40 @@ private:
     // UnboundedNoMaxLimit does not block or drop messages
     for (ThreadContext* thread_context : _active_thread_contexts_cache)
     {
-      if (thread_context->has_bounded_queue_type())
+      _report_failure_counter(thread_context, error_notifier);
+    }
+  }
+
+  /**
+   * Reports and resets the dropped messages / blocking occurrences counter of a single thread context
+   * @param thread_context thread context
+   * @param error_notifier error notifier
+   */
+  QUILL_ATTRIBUTE_HOT static void _report_failure_counter(ThreadContext* thread_context,
+                                                          std::function<void(std::string const&)> const& error_notifier) noexcept
+  {
+    if (thread_context->has_bounded_queue_type())
+    {
+      size_t const failed_messages_cnt = thread_context->get_and_reset_failure_counter();
+
+      if (QUILL_UNLIKELY(failed_messages_cnt > 0))
       {
-        size_t const failed_messages_cnt = thread_context->get_and_reset_failure_counter();
+        char timestamp[24];
+        time_t now = time(nullptr);
+        tm local_time;
+        localtime_rs(&now, &local_time);
+        strftime(timestamp, sizeof(timestamp), "%X", &local_time);
 
-        if (QUILL_UNLIKELY(failed_messages_cnt > 0))
+        if (thread_context->has_dropping_queue())
         {
-          char timestamp[24];
-          time_t now = time(nullptr);
-          tm local_time;
-          localtime_rs(&now, &local_time);
-          strftime(timestamp, sizeof(timestamp), "%X", &local_time);
-
-          if (thread_context->has_dropping_queue())
-          {
-            error_notifier(fmtquill::format("{} Quill INFO: Dropped {} log messages from thread {}",
-                                            timestamp, failed_messages_cnt, thread_context->thread_id()));
-          }
-          else if (thread_context->has_blocking_queue())
-          {
-            error_notifier(
-              fmtquill::format("{} Quill INFO: Experienced {} blocking occurrences on thread {}",
-                               timestamp, failed_messages_cnt, thread_context->thread_id()));
-          }
+          error_notifier(fmtquill::format("{} Quill INFO: Dropped {} log messages from thread {}",
+                                          timestamp, failed_messages_cnt, thread_context->thread_id()));
+        }
+        else if (thread_context->has_blocking_queue())
+        {
+          error_notifier(
+            fmtquill::format("{} Quill INFO: Experienced {} blocking occurrences on thread {}",
+                             timestamp, failed_messages_cnt, thread_context->thread_id()));
         }
       }
     }
@@ -1401,6 +1412,11 @@ private:
 
     while (QUILL_UNLIKELY(found_invalid_and_empty_thread_context != std::end(_active_thread_contexts_cache)))
     {
+      // The thread has exited, so its failure counter is final. Report it before the context is
+      // destroyed, otherwise dropped messages that were not reported yet are lost (this function
+      // also runs after a Flush event, i.e. before the idle path had a chance to report them)
+      _report_failure_counter(*found_invalid_and_empty_thread_context, _options.error_notifier);
+
       // if we found anything then remove it - Here if we have more than one to remove we will
       // try to acquire the lock multiple times, but it should be fine as it is unlikely to have
       // that many to remove
